@@ -164,6 +164,11 @@ func (e *Enc) resolveName(name string, b *ssa.BasicBlock, idx int, st *State) (e
 		if al, ok := c.v.(*ssa.Alloc); ok && c.isAddr && al.Comment == name {
 			dominates := (c.block == b && c.idx < idx) || (c.block != b && c.block.Dominates(b))
 			if _, have := e.vals[c.v]; have && dominates {
+				// assigned exactly once before any closure captures it: one value (the
+				// cell itself may have been forgotten by a havoc)
+				if v, ok := e.allocVal[al]; ok && e.stableLocalAlloc(al) {
+					return envEntry{V: v}, true
+				}
 				return envEntry{V: e.val(c.v), IsAddr: true}, true
 			}
 		}
@@ -1065,6 +1070,26 @@ func (e *Enc) evalCallSpec(x SCall, ctx *specCtx) *Val {
 			st = ctx.old
 		}
 		return mathBool(e.heldTerm(st, mu))
+	case "heldany":
+		// heldany(T.mu): the mutex mu of the (single) T instance is held by this goroutine
+		// (type-level flag used by `guarded ... by (T).mu`)
+		if sel, ok := x.Args[0].(SSel); ok {
+			if id, ok := sel.X.(SIdent); ok {
+				pkg := ctx.pkg
+				if pkg == "" && e.fn != nil && e.fn.Pkg != nil {
+					pkg = e.fn.Pkg.Pkg.Path()
+				}
+				st := ctx.st
+				if ctx.inOld {
+					st = ctx.old
+				}
+				if t, ok := st.ghost["b:anyheld:"+pkg+"."+id.Name+"."+sel.Name]; ok {
+					return mathBool(t)
+				}
+				return mathBool("false")
+			}
+		}
+		panic(encErr("heldany(T.mu): T must be a type name of this package"))
 	case "blk":
 		// the object (backing array / map / pointee) a slice, map or pointer value refers to
 		v := e.evalSpec(x.Args[0], ctx)
